@@ -26,6 +26,7 @@ ASSUMPTIONS = [
     "tolerance (linear domain): |a-b| <= 1e-7 max(|a|,|b|) + 1e-10 S for float64 input, 1e-4 / 1e-6 for float32 input (S = largest coefficient)",
     "the DFT size is the one observed in the computer's get_truncated_response calls; if none is observed the documented rule (next power of two when padded, else the frame length) is used",
     "window samples come from a fresh WindowFunction of the configured kind (tied to closed forms by C20)",
+    "the absolute tolerance term is never below 1e-12 x (sum over bins of |DFT|^p): coefficients of a filter whose response is < 1e-12 on the whole grid are the bank's own rounding noise",
 ]
 ANCHOR_FILES = ("src/pydrobert/speech/compute.py", "src/pydrobert/speech/filters.py")
 EXHAUSTIVE_PARTS = []
@@ -141,7 +142,7 @@ class StftMonitor:
         rtol, atol = (1e-2, 1e-3) if f16 else (1e-4, 1e-6) if f32 else (1e-7, 1e-10)
         if f16:
             self.rec.count("stft_float16_inputs")
-        ok, i, detail = R.compare_features(got, want, g["use_log"], config.LOG_FLOOR_VALUE, rtol, atol)
+        ok, i, detail = R.compare_features(got, want, g["use_log"], config.LOG_FLOOR_VALUE, rtol, atol, R.stft_ref.last_xscale)
         if not ok:
             col = None if i is None else i[1]
             which = "energy" if (g["energy"] and col == 0) else "filter %s" % (None if col is None else col - int(g["energy"]))
